@@ -6,6 +6,7 @@ import (
 	"go/constant"
 	"go/token"
 	"go/types"
+	"regexp"
 	"sort"
 	"strings"
 	"time"
@@ -162,6 +163,13 @@ type autoSlice struct {
 }
 
 func (x *Exec) oblige(kind string, ordinal int, pos token.Pos, st *State, goal string, human string) {
+	if strings.Contains(kind, ".auto") {
+		// automatic invariants are named after the variables they are about: keep the names those variables had when the
+		// lock was written, so that a pure rename does not rename the obligation
+		for oldName, obj := range x.g.renameMap(x.fi) {
+			kind = regexp.MustCompile(`\b`+regexp.QuoteMeta(obj.Name())+`\b`).ReplaceAllString(kind, oldName)
+		}
+	}
 	name := fmt.Sprintf("%s/%s", x.fi.Key, kind)
 	if ordinal > 0 {
 		name = fmt.Sprintf("%s/%s#%d", x.fi.Key, kind, ordinal)
